@@ -9,7 +9,7 @@ PROPS = {
         "oracle_engine": {"framing": "stream", "codec": "codec"},
         "trusted": [SYMBOLIC_CRYPTO],
         "technique": "Lean 4 theorems (round-trip by induction over accepted frame chains; send-accepts-implies-receive-accepts by case analysis) + correspondence on real streams over boundary sizes and all short compositions",
-        "level_text": "incremental_equals_complete (StartMessageRead + ReadMessageBytes(n) until end-of-message + EndMessageRead hands over exactly the message ReceiveCompleteMessage would, for every chunk size, consuming the same frames and leaving the stream clean) with readLoop_all; frame_roundtrip (bytes), send_accept_recv_accept (every frame a sender accepts passes the receiver's checks, both modes, first and later frames), messages_roundtrip_plain / _encrypted (ReceiveCompleteMessage loop returns exactly the sent messages for every accepted send history), typed-layer chunking theorems; kernel-checked over the model. Tied to the code by the framing and codec engines on real streams (sizes around 4 KiB / 16 KiB / 1 MiB ± GCM overhead; every composition of short messages; incremental and complete receive APIs).",
+        "level_text": "incremental_equals_complete (StartMessageRead + ReadMessageBytes(n) until end-of-message + EndMessageRead hands over exactly the message ReceiveCompleteMessage would, for every chunk size, consuming the same frames and leaving the stream clean) with readLoop_all; frame_roundtrip (bytes), send_accept_recv_accept (every frame a sender accepts passes the receiver's checks, both modes, first and later frames), messages_roundtrip_plain / _encrypted (ReceiveCompleteMessage loop returns exactly the sent messages for every accepted send history), buffered_roundtrip_plain / _encrypted (ANY sequence of messages each assembled by StartMessage, WriteMessage calls of any sizes with threshold flushes, EndMessage, is delivered as exactly one message per EndMessage = the concatenation of its writes) and buffered_incremental_plain (the same through the incremental API), typed-layer chunking theorems, typed_strbytes_any_length / typed_bytes_any_length (PutStringBytes and PutBytes of any length, including the >= 1 MiB branches, put exactly the reference bytes on the wire) and typed_rest_any_length (GetRemainingBytes returns exactly the unconsumed bytes of the message in any cut into frames; a truncated wire is an error); kernel-checked over the model. Tied to the code by the framing and codec engines on real streams (sizes around 4 KiB / 16 KiB / 1 MiB ± GCM overhead; every composition of short messages; one message of 1-3 MiB assembled from many partial sends / buffered writes / by the typed layer with position-dependent content; incremental, complete and typed receive APIs; large PutBytes/PutString/PutStringBytes followed by another value, GetRemainingBytes over several frames).",
         "level_note": "TCP delivery reliable and in order; symbolic AEAD; model hand-written, validated by correspondence; limits regenerated from source.",
         "assumptions": ["net.Conn delivers bytes reliably and in order"],
     },
@@ -81,7 +81,7 @@ PROPS = {
         "oracle_engine": {"gcmformat": "stream"},
         "trusted": [SYMBOLIC_CRYPTO, "refcodec: independent implementation of the documented frame format (same Go crypto primitives)"],
         "technique": "Lean 4 theorems (wire format by unfolding; nonce distinctness by invariant over arbitrary operation histories) + translation validation against an independent reference codec in both directions",
-        "level_text": "wire_format, first_aad_digests, nonce_sequence / nonces_distinct (any interleaving of sends, buffered writes, secrets, crypto toggles and receives; imported counters), refuses_wrap, iv_once: kernel-checked over the model. ref_accepts_impl / impl_accepts_ref are discharged by the gcmformat engine: every frame real streams emit is opened by refcodec, refcodec-built frames are fed to the real receiver, counters near 2^32 via NewStreamWithCryptoState.",
+        "level_text": "wire_format, first_aad_digests, nonce_sequence / nonces_distinct (any interleaving of sends, buffered writes, secrets, crypto toggles and receives; imported counters), refuses_wrap, iv_once: kernel-checked over the model. ref_accepts_impl / impl_accepts_ref are discharged by the gcmformat engine: every frame real streams emit is opened by refcodec, refcodec-built frames are fed to the real receiver, counters near 2^32 via NewStreamWithCryptoState driven to the limit through every sending API (SendMessage, SendPartialMessage, WriteMessage flush, EndMessage, PutSecret, typed FlushFrame/FinishMessage) with the refusal judged on the bytes written to the connection; IV freshness as an oracle on the implementation: base IVs of all key installations pairwise distinct also in their last 12 bytes, every byte position varying, every (key, 16-byte nonce) pair of the run used once across endpoints, directions, sessions and hand-offs.",
         "level_note": "Distinct RNG draws are distinct (crypto/rand); symbolic AEAD in the model, real AES-256-GCM in the correspondence.",
         "assumptions": ["crypto/rand yields fresh IVs"],
     },
@@ -101,7 +101,7 @@ PROPS = {
         "oracle_engine": {"handoff": "stream"},
         "trusted": [SYMBOLIC_CRYPTO],
         "technique": "Lean 4 theorems (refusal condition iff, field-exact restore, rejection lemmas) + correspondence over traffic histories with export attempted at every step, chains of hand-offs, all truncations and single-byte corruptions of a blob",
-        "level_text": "export_refused_iff, export_contents, import_export (all crypto/framing fields restored verbatim), decode_encode + blob_roundtrip (parsing the bytes written gives back exactly the fields, for every key/IV/counter/flag/digest/peer value in range), handoff_transparent (for EVERY sequence of sends, buffered writes, message ends, secrets, crypto toggles and receives of arbitrary frames the imported stream emits the same frames and delivers the same messages as the exporting stream would - a simulation proved operation by operation), handoff_chain (hand-offs compose), import_rejects_truncated (EVERY strict prefix of a well-formed blob is rejected), import_rejects_{short,magic,version}: kernel-checked. With C02.recv_prefix_midstream and C12.nonce_sequence this gives the authentic-prefix and no-nonce-reuse guarantees after the hand-off. Tied to the code by the handoff engine (export at clean and unclean points on either end, chained hand-offs, continued two-way traffic checked by refcodec, every truncation/corruption of a valid blob).",
+        "level_text": "export_refused_iff, export_contents, import_export (all crypto/framing fields restored verbatim), decode_encode + blob_roundtrip (parsing the bytes written gives back exactly the fields, for every key/IV/counter/flag/digest/peer value in range), handoff_transparent (for EVERY sequence of sends, buffered writes, message ends, secrets, crypto toggles and receives of arbitrary frames the imported stream emits the same frames and delivers the same messages as the exporting stream would - a simulation proved operation by operation), handoff_chain (hand-offs compose), import_rejects_truncated (EVERY strict prefix of a well-formed blob is rejected), import_rejects_{short,magic,version}, import_identity / import_around_eq (whatever connection the stream is rebuilt around, it reports the exporter's authentication status and the exporter's peer address; only a session that never knew its peer takes the new connection's): kernel-checked. With C02.recv_prefix_midstream and C12.nonce_sequence this gives the authentic-prefix and no-nonce-reuse guarantees after the hand-off. Tied to the code by the handoff engine (connections with remote addresses, authentication status and peer address set and changed, import around a connection with ANOTHER remote address and IsAuthenticated/GetPeerAddr compared with the exporter's; export at clean and unclean points on either end incl. a message in progress with nothing consumed (also an empty one), everything consumed but not ended, bytes buffered by WriteMessage, unread inbound messages waiting on the connection; chained hand-offs, continued two-way traffic checked by refcodec, every truncation/corruption of a valid blob, versions 0/2/3/0x0100/0x0101/0x7fff/0x8001/0xffff, case-flipped/rotated/shifted magic).",
         "level_note": "fd passing itself out of scope; digests are carried as opaque bytes after import (unused once both first frames passed).",
         "assumptions": ["the blob travels over a trusted local channel (as documented)"],
     },
@@ -111,7 +111,7 @@ PROPS = {
         "oracle_engine": {"tamper": "stream"},
         "trusted": [SYMBOLIC_CRYPTO],
         "technique": "Lean 4 theorem (invariant + induction over adversarial wire, symbolic AEAD) + correspondence/tamper fault enumeration on real streams",
-        "level_text": "recv_prefix / recv_prefix_midstream: for every send history in both directions and every Dolev-Yao rewriting of the wire (own bytes, the sender's seals replayed/re-headed, the RECEIVER's own seals reflected), ReceiveCompleteMessage delivers a prefix of the sent messages, under one stated session hypothesis (the two fresh IVs differ in their last 12 bytes: two independent random draws); a reflected first frame announces the receiver's own IV and is refused (reflection_rejected is the concrete case that failed before the fix) (model theorem, kernel-checked); no_bypass: no frame is accepted without AES-GCM open. Model tied to the code by the tamper engine (single-fault catalogue + multi-faults on real keyed streams, compared with the model).",
+        "level_text": "recv_prefix / recv_prefix_midstream: for every send history in both directions and every Dolev-Yao rewriting of the wire (own bytes, the sender's seals replayed/re-headed, the RECEIVER's own seals reflected), ReceiveCompleteMessage delivers a prefix of the sent messages, under one stated session hypothesis (the two fresh IVs differ in their last 12 bytes: two independent random draws); a reflected first frame announces the receiver's own IV and is refused (reflection_rejected is the concrete case that failed before the fix) (model theorem, kernel-checked); recv_prefix_incremental / _midstream: the same prefix guarantee for the incremental API (StartMessageRead -> readNextFrame, ReadMessageBytes(n) until end-of-message for every n, EndMessageRead): a wire that ends inside a multi-frame message is an error, never a truncated message; recv_prefix_frames: plain ReceiveFrame (GetSecret/GetFile) hands over only a prefix of the frame payloads sent; no_bypass / no_bypass_recvFrame: no frame is accepted without AES-GCM open. Model tied to the code by the tamper engine (single-fault catalogue incl. end flags 0..10 + multi-faults on real keyed streams, every fault presented to ReceiveCompleteMessage, Message.GetRemainingBytes, the incremental API, ReceiveFrame and GetSecret, transcripts of secrets with encryption switched off around them; compared with the model).",
         "level_note": "Symbolic AEAD (free constructors); receive errors terminal; model hand-written and validated by correspondence; constants regenerated from source.",
         "assumptions": ["a receive error is terminal (the application stops reading)", "crypto/aes, crypto/cipher GCM are correct"],
     },
